@@ -30,8 +30,9 @@ PatVerdict(e) ==
   ELSE "harness-unknown-carrier"
 IsPmtVerdict(e) ==
   LET pat == Abs(e) IN
-  IF ~WFPat(pat) \/ ~IsPatPayload(e.bytes, pat) THEN "harness-bad-bytes"
-  ELSE IF { e.true_pids[i] : i \in 1..Len(e.true_pids) } # MapPids(pat) THEN "is-pmt-classification"
+  IF ~(IF e.dup THEN Encodable(pat) ELSE WFPat(pat)) \/ ~IsPatPayload(e.bytes, pat) THEN "harness-bad-bytes"
+  ELSE IF e.true_pids # e.map_pids THEN "is-pmt-differs-from-the-values-of-the-reported-map"
+  ELSE IF ~e.dup /\ { e.true_pids[i] : i \in 1..Len(e.true_pids) } # MapPids(pat) THEN "is-pmt-classification"
   ELSE IF e.any_err THEN "is-pmt-error"
   ELSE IF ~e.nil_err THEN "nil-pat-not-an-error"
   ELSE ""
